@@ -585,6 +585,12 @@ class ExecGen(ProgGen):
         reg = rng.choice(list(self.elems))
         pool = [n for n in PARAM_NAMES + ["k", "i"] if n != reg]
         kname = rng.choice(pool)
+        bound_lets = sorted({x for s in self.header if s[0] == "map" for x in s[3:] if isinstance(x, str) and "." not in x})
+        if bound_lets and rng.random() < self.p["p_shadow"]:
+            # the index parameter carries the name of a constant that some alias declaration uses as a bound: inside the
+            # macro the name is the parameter, in the declaration it stays the constant
+            kname = rng.choice(bound_lets)
+            self.shadowed_lets.add(kname)
         fname = rng.choice([n for n in pool if n != kname])
         gname = rng.choice(["X", "H", "S", "T2", "Rx", "Ry", "Rz", "NOP"])
         has_f = gname in ("Rx", "Ry", "Rz")
